@@ -207,7 +207,7 @@ class Translator:
             body = node.body
         return node
 
-    def declare(self, tgt):
+    def declare(self, tgt, register=True):
         node = self.find_def(tgt["py"])
         if not isinstance(node, ast.FunctionDef):
             raise Unsupported(f"{tgt['py']} is not a function")
@@ -239,6 +239,8 @@ class Translator:
         ret = tgt["ret"] if "ret" in tgt else self.ann(node.returns)
         f = Func(tgt["coq"], params, ret, node, self_ty)
         f.tgt = tgt
+        if not register:
+            return f
         self.funcs[tgt["py"]] = f
         if "." in tgt["py"]:
             cls, m = tgt["py"].split(".")
@@ -310,6 +312,30 @@ class Translator:
             else:
                 fail(node, f"missing argument {pn}")
         return out
+
+    # ------------------------------------------------------------------ helpers that are not in the manifest
+    def inline_call(self, qual, n, env, self_text=None):
+        """A call to a function / method of the same file that the manifest does not list (e.g. a helper extracted by a
+        refactoring): translated IN PLACE, `let '(params) := (arguments) in <body>`, provided the helper is fully
+        annotated and its body is in the supported subset (otherwise the translation fails closed as before).
+        The arguments are bound simultaneously, so a parameter name cannot capture a variable of a later argument."""
+        self.inline_depth = getattr(self, "inline_depth", 0) + 1
+        try:
+            if self.inline_depth > 4:
+                fail(n, f"helper {qual}: inlining too deep (recursive?)")
+            f = self.declare({"py": qual, "coq": "inlined_" + qual.replace(".", "_")}, register=False)
+            args = self.bind_args(f, n, env, self_text=self_text)
+            inner = {pn: pt for pn, pt, _ in f.params}
+            body = self.block(f.node.body, inner, f.ret, lambda e: fail(f.node, "helper falls off its end"))
+            names = [self.var(pn) for pn, _, _ in f.params]
+            if not names:
+                return f"({body})", f.ret
+            if len(names) == 1:
+                return f"(let {names[0]} := {args[0]} in {body})", f.ret
+            pat = ", ".join(names)
+            return f"(let '({pat}) := ({', '.join(args)}) in {body})", f.ret
+        finally:
+            self.inline_depth -= 1
 
     # ------------------------------------------------------------------ expressions
     def ex(self, n, env):
@@ -683,6 +709,13 @@ class Translator:
                         fail(n, f"method {fn.attr} not declared yet")
                     args = self.bind_args(f, n, env, self_text=obj)
                     return f"({f.coq} " + " ".join(args) + ")", f.ret
+                for cls, ty in self.self_types.items():      # a method of the same class that is not in the manifest
+                    if ty == oty:
+                        try:
+                            self.find_def(f"{cls}.{fn.attr}")
+                        except Unsupported:
+                            continue
+                        return self.inline_call(f"{cls}.{fn.attr}", n, env, self_text=obj)
                 fail(n, f"method {fn.attr} on {oty}")
         # ---- a function-valued parameter
         if isinstance(fn, ast.Name) and fn.id in env and isinstance(env[fn.id], tuple) and env[fn.id][0] == "funN":
@@ -699,6 +732,14 @@ class Translator:
         special = self.spec.get("special_calls", {})
         if name in special:
             return special[name](self, n, env)
+        if isinstance(fn, ast.Name):                          # a module-level helper that is not in the manifest
+            try:
+                self.find_def(name)
+                found = True
+            except Unsupported:
+                found = False
+            if found:
+                return self.inline_call(name, n, env)
         fail(n, f"call to unknown function {name}")
 
     def ex_GeneratorExp(self, n, env):
